@@ -56,7 +56,7 @@ Qed.
 (* one row *)
 Lemma row_sim phi sr sc cr heads sr1 heads1 sc1 :
   Sim phi sr sc -> StOK fresh GP sc -> cs_heads sc = heads -> row_ok cr ->
-  rstep sr heads (cr_row cr) = Some (sr1, heads1) -> cstep fresh sc cr = Ok sc1 ->
+  rstep sr heads (cr_row cr) = Some (sr1, heads1) -> cstep_read fresh sc cr = Ok sc1 ->
   exists phi1, Sim phi1 sr1 sc1 /\ cs_heads sc1 = heads1 /\ phi_le phi phi1.
 Proof.
   intros Hsim Hst Hh Hok Hr Hc. unfold rstep in Hr.
@@ -67,7 +67,7 @@ Proof.
     exists phi1. split; [exact H1|]. split; [congruence|exact H3].
   - (* go_to *)
     destruct (step_row nab sr (cr_row cr)) as [s'|] eqn:Es; [|discriminate]. injection Hr as <- <-.
-    unfold step_row in Es. unfold cstep in Hc. rewrite Et in Es, Hc.
+    unfold step_row in Es. unfold cstep_read in Hc. rewrite Et in Es, Hc.
     destruct (negb _) eqn:En in Es; [discriminate|]. rewrite En in Hc.
     destruct Hok as [Hedges _].
     match type of Hc with foldM _ ?l0 _ = _ => set (l := l0) in * end.
@@ -77,24 +77,24 @@ Proof.
     exists phi1. split; [exact H1|]. split; [congruence|exact H3].
   - (* no_op *)
     destruct (step_row nab sr (cr_row cr)) as [s'|] eqn:Es; [|discriminate]. injection Hr as <- <-.
-    unfold step_row in Es. unfold cstep in Hc. rewrite Et in Es, Hc. destruct Hok as [Hedges _].
+    unfold step_row in Es. unfold cstep_read in Hc. rewrite Et in Es, Hc. destruct Hok as [Hedges _].
     exists phi. split; [eapply noop_row_sim; eauto|]. split; [|apply phi_le_refl].
     unfold cparse_noop in Hc. destruct (foldM _ _ []) as [ps|x]; [|discriminate]. injection Hc as <-. exact Hh.
   - (* hard_exit *)
     destruct (step_row nab sr (cr_row cr)) as [s'|] eqn:Es; [|discriminate]. injection Hr as <- <-.
-    unfold step_row in Es. unfold cstep in Hc. rewrite Et in Es, Hc. destruct Hok as [Hedges _].
+    unfold step_row in Es. unfold cstep_read in Hc. rewrite Et in Es, Hc. destruct Hok as [Hedges _].
     destruct (exit_rows_sim fresh fresh_inj fresh_not_sentinel GP phi sr sc _ DHard sentinel_dst s' sc1 Hsim Hst Hedges) as (phi1 & H1 & H2 & H3); auto.
     + reflexivity.
     + exists phi1. split; [exact H1|]. split; [congruence|exact H3].
   - (* loose_exit *)
     destruct (step_row nab sr (cr_row cr)) as [s'|] eqn:Es; [|discriminate]. injection Hr as <- <-.
-    unfold step_row in Es. unfold cstep in Hc. rewrite Et in Es, Hc. destruct Hok as [Hedges _].
+    unfold step_row in Es. unfold cstep_read in Hc. rewrite Et in Es, Hc. destruct Hok as [Hedges _].
     destruct (exit_rows_sim fresh fresh_inj fresh_not_sentinel GP phi sr sc _ DNone None s' sc1 Hsim Hst Hedges) as (phi1 & H1 & H2 & H3); auto.
     + exact I.
     + exists phi1. split; [exact H1|]. split; [congruence|exact H3].
   - (* begin_block *)
     destruct (step_row nab sr (cr_row cr)) as [s'|] eqn:Es; [|discriminate]. injection Hr as <- <-.
-    unfold step_row in Es. unfold cstep in Hc. rewrite Et in Es, Hc. destruct Hok as [Hedges _].
+    unfold step_row in Es. unfold cstep_read in Hc. rewrite Et in Es, Hc. destruct Hok as [Hedges _].
     set (is_start := match r_edges (cr_row cr) with [e] => match e_from e with FStart => true | _ => false end | _ => false end) in *.
     pose proof (Sim_with_stack phi sr sc ([] :: cs_stack sc) (r_id (cr_row cr) :: cs_heads sc) Hsim) as Hs0.
     rewrite <- (sim_stack _ _ _ Hsim) in Hs0 at 1.
@@ -110,7 +110,7 @@ Proof.
       exact G.
   - (* end_block *)
     destruct heads as [|h heads']; [discriminate|]. rewrite (sim_stack _ _ _ Hsim) in Hr.
-    unfold cstep in Hc. rewrite Et, Hh in Hc.
+    unfold cstep_read in Hc. rewrite Et, Hh in Hc.
     destruct (cs_stack sc) as [|members outer] eqn:Estk; [discriminate|]. injection Hr as <- <-. injection Hc as <-.
     exists phi. split; [|split; [reflexivity|apply phi_le_refl]].
     assert (G := Sim_add_group phi _ _ (GBlock members) (CGBlock members) h (Sim_with_stack phi sr sc outer heads' Hsim) (GS_block _ _ members)
@@ -122,7 +122,7 @@ Qed.
 Theorem run_sim rows : forall phi sr sc heads sr' sc',
   Forall row_ok rows -> (forall cr, In cr rows -> cr_uuid cr <> [] -> GP (cr_uuid cr)) ->
   Sim phi sr sc -> Inv fresh GP sc -> cs_heads sc = heads ->
-  run_rows nab (map cr_row rows) sr heads = Some sr' -> foldM (cstep fresh) rows sc = Ok sc' ->
+  run_rows nab (map cr_row rows) sr heads = Some sr' -> foldM (cstep_read fresh) rows sc = Ok sc' ->
   exists phi', Sim phi' sr' sc' /\ Inv fresh GP sc' /\ cs_heads sc' = [] /\ phi_le phi phi'.
 Proof.
   induction rows as [|cr rest IH]; intros phi sr sc heads sr' sc' Hok Hgiven Hsim Hinv Hh; cbn [map foldM].
@@ -130,11 +130,11 @@ Proof.
     split; [exact Hsim|]. split; [exact Hinv|]. split; [exact Hh|apply phi_le_refl].
   - rewrite run_rows_cons. inversion Hok as [|? ? Hcr Hrest]; subst.
     destruct (rstep sr (cs_heads sc) (cr_row cr)) as [[s1 h1]|] eqn:Er; [|discriminate].
-    destruct (cstep fresh sc cr) as [c1|x] eqn:Ec; [|discriminate]. intros H1 H2.
+    destruct (cstep_read fresh sc cr) as [c1|x] eqn:Ec; [|discriminate]. intros H1 H2.
     destruct (row_sim phi sr sc cr _ s1 h1 c1 Hsim (inv_st _ _ _ Hinv) eq_refl Hcr Er Ec) as (phi1 & S1 & E1 & L1).
     destruct (IH phi1 s1 c1 h1 sr' sc' Hrest) as (phi2 & S2 & I2 & E2 & L2); auto.
     + intros cr0 Hin. apply Hgiven. right. exact Hin.
-    + eapply (cstep_ok fresh GP fresh_inj); eauto. apply Hgiven. left. reflexivity.
+    + eapply (cstep_read_ok fresh GP fresh_inj); eauto. apply Hgiven. left. reflexivity.
     + exists phi2. split; [exact S2|]. split; [exact I2|]. split; [exact E2|eapply phi_le_trans; eauto].
 Qed.
 End Run.
